@@ -156,26 +156,10 @@ inductive Res where
 def revokePre (s : St) (k : Nat) (byCert : Bool) : List Step :=
   if byCert && !(k ∈ s.stored) then [Step.putCert k] else []
 
-/-- `pathRevokeWrite` + `revokeCert` -/
+/-- `pathRevokeWrite` + `revokeCert`.  Since the repair of finding F5 (commit e3ecbb3) the already-revoked branch
+    rebuilds the CRLs too when auto-rebuild is off: an earlier attempt may have been interrupted after the
+    revocation record was written and before the CRL was. -/
 def revokeProg (s : St) (k : Nat) (byCert : Bool) (o1 o2 : List Nat) : List Step × Res :=
-  match s.certs[k]? with
-  | none => ([], .badOp)
-  | some c =>
-    if !byCert && !(k ∈ s.stored) then ([], .notFound) else
-    if byCert && !(k ∈ s.stored) && !(c.issuer ∈ s.issuers) then ([], .noSigner) else
-    let pre := revokePre s k byCert
-    match s.revoked.lookup k with
-    | some t => (pre, .revoked t)
-    | none =>
-      if c.notAfter < s.now + 2 && !s.cfg.allowExpired then (pre, .expired) else
-      let t := s.stamps + 1
-      let rec1 := pre ++ [Step.putRevoked k t]
-      if s.cfg.autoRebuild then (rec1, .revoked t)
-      else (rec1 ++ rebuildSteps (applySteps s rec1) false o1 o2, .revoked t)
-
-/-- REPAIR CANDIDATE for finding F5 (not the current code): the already-revoked branch of `revokeCert` rebuilds the
-    CRLs as well when auto-rebuild is off -/
-def revokeProgFixed (s : St) (k : Nat) (byCert : Bool) (o1 o2 : List Nat) : List Step × Res :=
   match s.certs[k]? with
   | none => ([], .badOp)
   | some c =>
